@@ -372,6 +372,10 @@ def run_check(args):
             try:
                 small, nruns = shrink(
                     sc, lambda x: campaigns.run_any(x, prop), k, prop=prop)
+                from .shrink import minimise_schedule
+                small, n2 = minimise_schedule(
+                    small, lambda x: campaigns.run_any(x, prop), k, prop=prop)
+                nruns += n2
                 res2 = campaigns.run_any(small, prop)
                 if vkey(res2, prop) == k:
                     res = res2
